@@ -96,7 +96,8 @@ func TWO_PARSERS(h *rt.H) {
 	switch ci {
 	case 0:
 		h.Assume(hi >= '1' && hi <= '9' && lo >= '0' && lo <= '9')
-		doc = []byte{'[', '"', s[0], s[1], s[2], '"', ',', hi, lo, '0', '7', ',', '"', s[3], s[4], '"', ']'}
+		// (with escape sequences: they are decoded in a buffer of the parser's own)
+		doc = []byte{'[', '"', s[0], '\\', 'n', s[1], s[2], '"', ',', hi, lo, '0', '7', ',', '"', '\\', 'u', '0', '0', '4', '1', s[3], s[4], '"', ']'}
 	case 1:
 		doc = []byte{'[', 'S', 'U', 3, s[0], s[1], s[2], 'I', hi, lo, 'S', 'U', 2, s[3], s[4], ']'}
 	default:
@@ -143,6 +144,9 @@ func TWO_ENCODERS(h *rt.H) {
 	kb, sb := h.Bytes("K", 1), h.Bytes("S", 2)
 	h.Assume(kb[0] < 0x80 && sb[0] < 0x80 && sb[1] < 0x80)
 	key, str := "<"+string(kb), string(sb)
+	// above MaxInt64 (UBJSON writes it as a high-precision number); concrete: number
+	// formatting is C01's subject, here only where the digits are kept matters
+	big := uint64(10000000000000000001)
 	var f1, f2, x1, x2 bool
 	if ci == 0 {
 		f1, f2 = h.Choose("html1", 0, 1) == 1, h.Choose("html2", 0, 1) == 1
@@ -156,7 +160,7 @@ func TWO_ENCODERS(h *rt.H) {
 				jv.SetEscapeHTML(html)
 				jv.SetExplicitRadixPoint(radix)
 			}
-			err := v.OnObjectStart(2, structform.AnyType)
+			err := v.OnObjectStart(5, structform.AnyType)
 			step := func(e error) {
 				if err == nil {
 					err = e
@@ -166,6 +170,12 @@ func TWO_ENCODERS(h *rt.H) {
 			step(v.OnString(str))
 			step(v.OnKey("f"))
 			step(v.OnFloat64(2))
+			step(v.OnKey("u"))
+			step(v.OnUint64(big)) // above MaxInt64: UBJSON high-precision number
+			step(v.OnKey("i"))
+			step(v.OnInt64(-int64(big >> 1)))
+			step(v.OnKey("a"))
+			step(structform.EnsureExtVisitor(v).OnUint64Array([]uint64{big, 1}))
 			step(v.OnObjectFinished())
 			*errOut = err
 		}
